@@ -162,6 +162,17 @@ def main():
     keysep = one("distributed-walrus/src/controller/types.rs", r"wal_key\.rsplitn\(2, \"([^\"]*)\"\)", "WAL_KEY_SEP", conv=str)
     keypre = one("distributed-walrus/src/controller/types.rs", r"strip_prefix\(\"([^\"]*)\"\)\?", "WAL_KEY_PREFIX", conv=str)
 
+    # Raft state-machine adapter (octopii/src/openraft/storage.rs): what build_snapshot serialises
+    st = src("octopii/src/openraft/storage.rs")
+    own_map = len(re.findall(r"let data = bincode::serialize\(&state_machine\.data\)", st)) == 1
+    calls_app_snapshot = len(re.findall(r"\.sm\s*\.snapshot\(\)|self\.sm\.snapshot\(\)", st)) > 0
+    data_writes = len(re.findall(r"\.data\.insert\(|sm\.data\s*=[^=]|state_machine\.data\s*=[^=]", st))
+    restores_reencoded = len(re.findall(r"let snapshot_bytes = bincode::serialize\(&updated_state_machine_data\)", st)) == 1 and \
+        len(re.findall(r"\.restore\(&snapshot_bytes\)", st)) == 1
+    facts["ADAPTER_SNAPSHOTS_OWN_MAP"] = {"value": bool(own_map and not calls_app_snapshot and data_writes == 0), "file": "octopii/src/openraft/storage.rs",
+                                          "detail": {"serialises_state_machine_data": own_map, "calls_sm_snapshot": calls_app_snapshot, "writes_to_data": data_writes}}
+    facts["ADAPTER_RESTORES_REENCODED_MAP"] = {"value": bool(restores_reencoded), "file": "octopii/src/openraft/storage.rs"}
+
     if errors:
         for e in errors:
             print("TRANSLATOR-ERROR: " + e)
@@ -196,6 +207,8 @@ def main():
     L.append("def SANITIZE_EXCLUDED : List (List Char) := [%s]" % ", ".join("[%s]" % ", ".join(lean_char(c) for c in e) for e in excl))
     L.append("def SANITIZE_FALLBACK_PREFIX : List Char := [%s]" % ", ".join(lean_char(c) for c in prefix))
     L.append("def INDEX_SUFFIX : String := %s" % lean_str(idx_suffix))
+    L.append("def ADAPTER_SNAPSHOTS_OWN_MAP : Bool := %s" % ("true" if facts["ADAPTER_SNAPSHOTS_OWN_MAP"]["value"] else "false"))
+    L.append("def ADAPTER_RESTORES_REENCODED_MAP : Bool := %s" % ("true" if facts["ADAPTER_RESTORES_REENCODED_MAP"]["value"] else "false"))
     # wal_key format "t_{}_s_{}" -> prefix, separator
     m = re.fullmatch(r"([^{}]*)\{\}([^{}]*)\{\}", keyfmt)
     if not m:
